@@ -17,6 +17,9 @@ func init() {
 }
 
 func runC08(c *Ctx) {
+	c.rule("C08-R7", "PAIR: every Lock/RLock of the shared providers (pkg/database, pkg/redis, pkg/mongodb mocks) and of pkg/interpreter is released on every path to a return: one request cannot wedge the provider for all others")
+	c.Sites["C08-R7#acquire-sites"] = lockReleaseAudit(c, "C08-R7", []string{"pkg/database", "pkg/redis", "pkg/mongodb", interpPkg})
+	c.floor("C08-R7", 20)
 	// ---- R1 shared write-set
 	c.rule("C08-R1", "WRS: no function of pkg/interpreter reachable from a request root stores to, updates a map of, or atomically modifies a field of the shared Interpreter / TypeChecker / ModuleResolver objects, defines or sets variables in Interpreter.globalEnv, or writes a package-level variable, unless a mutex of the owning object is held at that point")
 	roots := []string{"Interpreter.ExecuteRoute", "Interpreter.ExecuteCommand", "Interpreter.ExecuteEventHandler", "Interpreter.ExecuteQueueWorker"}
